@@ -250,6 +250,45 @@ func (propC15) Judge(sc *Scenario) *Verdict {
 		}
 	}
 	_ = baseOut
+	// clock-jump twin: with the environment held fixed, nothing but the date
+	// line of a man page written without SOURCE_DATE_EPOCH may depend on the
+	// wall clock.
+	if v.OK && len(sc.Scheds) > 0 {
+		sc2 := *sc
+		sc2.World.Now = sc.World.Now + 400*86400 + 3601
+		if sc2.World.Now == 400*86400+3601 {
+			sc2.World.Now += 1700000000
+		}
+		o := Execute(&sc2, sc.Scheds[0])
+		v.Evals++
+		v.stat("twin.clock-jump")
+		obs := c15Observable(o)
+		sde := string(sc.World.Env["SOURCE_DATE_EPOCH"])
+		for _, op := range sc.Ops {
+			if op.Kind == "setenv" && op.Key == "SOURCE_DATE_EPOCH" || op.Kind == "unsetenv" && op.Key == "SOURCE_DATE_EPOCH" {
+				sde = "" // changes mid-history: do not judge man output
+			}
+		}
+		for j := range obs {
+			if j < len(base) && obs[j] == base[j] {
+				continue
+			}
+			field := strings.SplitN(obs[j], "=", 2)[0]
+			parts := strings.Split(field, ":")
+			if len(parts) == 3 && parts[1] == "man" && parts[2] == "out" && sde == "" {
+				continue // today's date, by design
+			}
+			cls := field
+			if len(parts) == 3 {
+				cls = parts[1] + ":" + parts[2]
+			}
+			v.OK = false
+			v.Class = "c15:clock-dependent:" + cls
+			v.Msg = fmt.Sprintf("same scenario, same schedule, same environment (SOURCE_DATE_EPOCH=%q), simulated clock moved from %d to %d: %s differs:\n  A: %s\n  B: %s",
+				sde, sc.World.Now, sc2.World.Now, field, clip(after(base[j]), 600), clip(after(obs[j]), 600))
+			break
+		}
+	}
 	var kinds []string
 	for _, op := range sc.Ops {
 		kinds = append(kinds, op.Kind)
